@@ -80,7 +80,11 @@ def lsContainsLine (cs : List Pt) (a b : Pt) : Bool :=
 
 /-- `LineString: Contains<LineString>` -/
 def lsContainsLs (cs ds : List Pt) : Bool :=
-  if cs.isEmpty || ds.isEmpty then false else (segs ds).all (fun s => lsContainsLine cs s.1 s.2)
+  if cs.isEmpty || ds.isEmpty then false else
+  -- after the `fix:` (repeated coordinates of `rhs`): zero-length segments are only asked about when there is no proper one
+  let proper := (segs ds).filter (fun s => s.1 != s.2)
+  if !proper.isEmpty then proper.all (fun s => lsContainsLine cs s.1 s.2)
+  else (segs ds).all (fun s => lsContainsLine cs s.1 s.2)
 
 /-- `MultiLineString: Contains<Point>` (after the fix): on a member, and an end point of an even
 number of open members -/
